@@ -33,6 +33,7 @@ def run(tier, seed):
         raise vlib.InfraError("MiHeap: the model of the heap's page queues violates MiHeapValid (specification error or the code changed):\n" + r["out"][-3000:])
     ocov["heap_queue_model"] = {"module": "MiHeap", "config": "MiHeap_mc.cfg", "distinct_states": r["distinct"]}
     return concfam.run_conc("C08", tier, seed, jobs, GUARDS, step_guards=concfam.STEP_GUARDS, V=V,
-                            extra_cov={"forced_abandonment": {k: ocov[k] for k in ("traces_validated_against_impl", "trace_events_validated", "os_events", "runs_sample")}, "heap_queue_model": ocov["heap_queue_model"]}, mc=("MiPage", ("MiPage_mc.cfg", "MiPage_mc_thorough.cfg")), guided_progs=("page",),
+                            extra_cov={"forced_abandonment": {k: ocov[k] for k in ("traces_validated_against_impl", "trace_events_validated", "os_events", "runs_sample")}, "heap_queue_model": ocov["heap_queue_model"],
+                                       "os_part_dumps": {k: ocov.get(k, 0) for k in ("segment_tables_validated", "heap_dumps_validated", "arena_dumps_validated")}}, mc=("MiPage", ("MiPage_mc.cfg", "MiPage_mc_thorough.cfg")), guided_progs=("page",),
                             assumptions=["QuiescentClean is demanded after a forced mi_heap_collect of the owner's (user) heap once every block was freed by whichever thread",
                                          "NoBlowUp compares the maximum number of page areas of the producer heap in the second half of 2400 rounds with the first half (+2 + an eighth of it), with the default and a maximal MIMALLOC_GENERIC_COLLECT"])
